@@ -87,6 +87,18 @@ Theorem C01_pending_arms_every_group :
 Proof. exact pending_arms_every_group. Qed.
 Print Assumptions C01_pending_arms_every_group.
 
+(** ... and for FuturesOrdered, whose outer loop may poll the inner collection several times in
+    one call *)
+From FB Require Import Ordered.
+Theorem C01_ordered_pending_arms_every_group :
+  forall (P : params), params_ok P ->
+  forall (ops : list op) (q : fo) (t : nat) (i : injection),
+  st_coll (reach P ops) = CFo q ->
+  let '(q', sp, w') := fo_poll_next P q t (begin_op i (st_world (reach P ops))) in
+  sp = SPending -> forall g, In g (groups (fu_inner q')) -> fub_len g <> 0 -> K (blk g) t w'.
+Proof. exact fo_pending_arms_every_group. Qed.
+Print Assumptions C01_ordered_pending_arms_every_group.
+
 (** the same for the loop from any cursor position and any number of remaining iterations:
     the groups not yet visited are the first [n] in cursor order *)
 Theorem C01_group_loop_visits_every_group :
